@@ -69,6 +69,12 @@ def kind : Err → String
   | .other m => m
 end Err
 
+instance {ε α : Type} [DecidableEq ε] [DecidableEq α] : DecidableEq (Except ε α)
+  | .ok a, .ok b => if h : a = b then isTrue (by rw [h]) else isFalse (fun e => h (Except.ok.inj e))
+  | .error a, .error b => if h : a = b then isTrue (by rw [h]) else isFalse (fun e => h (Except.error.inj e))
+  | .ok _, .error _ => isFalse (fun e => by cases e)
+  | .error _, .ok _ => isFalse (fun e => by cases e)
+
 /-- Argument of the NaN-aware lookups (`get_group`, `contains`): a value or `numpy.nan`. -/
 inductive Arg where
   | val (v : Val)
